@@ -35,7 +35,7 @@ Section Entry.
       let '(t, r) := take 81 xs in out 81 (rotate4 (aol t) (aol r))
     else Err OtherError.
   (* polar_decompose over the recorded SVD:  M(9) U(9) S(3) Vh(9) -- the GENERATED definitions of
-     Gen_polar (tie T); Inst_tensors.polar_left_inst / polar_right_inst equate them with
+     Gen_polar (tie T); Inst_polar.polar_left_inst / polar_right_inst equate them with
      Model_decomp.polar_left / polar_right, on which the theorems are stated *)
   Definition run_polar_left (xs : list F) : res (list F) :=
     if Nat.eqb (length xs) 30 then
